@@ -9,82 +9,95 @@ Proof. intro H. unfold upd. apply Nat.eqb_neq in H. now rewrite H. Qed.
 
 Lemma exec1_untouched f o n : touches n o = false -> exec1 f o n = f n.
 Proof.
-  destruct o; cbn; intro H; try reflexivity.
+  destruct o; cbn; intro H; try reflexivity;
+    try (destruct (f n0) as [[[d p] u]|]; [|reflexivity]; apply Nat.eqb_neq in H; apply upd_other; congruence).
   - apply Nat.eqb_neq in H. apply upd_other. congruence.
-  - destruct (f n0) as [[d p]|]; [|reflexivity]. apply Nat.eqb_neq in H. apply upd_other. congruence.
-  - destruct (f n0) as [[d p]|]; [|reflexivity]. apply Nat.eqb_neq in H. apply upd_other. congruence.
   - apply orb_false_iff in H. destruct H as [Ha Hb]. apply Nat.eqb_neq in Ha, Hb.
     destruct (f a) as [x|]; [|reflexivity]. rewrite upd_other by congruence. apply upd_other. congruence.
 Qed.
 
 (** invariant carried along an op list of atomic shape *)
-Definition tmp_ok (f : fs) (tmp : name) (opened synced : bool) : Prop :=
-  (opened = true -> exists d p, f tmp = Some (d, p)) /\ (synced = true -> exists d, f tmp = Some (d, [])).
+Definition tmp_ok (f : fs) (tmp : name) (opened flushed synced : bool) : Prop :=
+  (opened = true -> exists d p u, f tmp = Some (d, p, u))
+  /\ (opened = true -> flushed = true -> exists d p, f tmp = Some (d, p, []))
+  /\ (synced = true -> exists d, f tmp = Some (d, [], [])).
 
-Lemma atomic_shape_safe tmp final : tmp <> final -> forall ops opened synced f,
-  is_atomic_shape tmp final ops opened synced = true -> tmp_ok f tmp opened synced ->
+Lemma atomic_shape_safe tmp final : tmp <> final -> forall ops opened flushed synced f,
+  is_atomic_shape tmp final ops opened flushed synced = true -> tmp_ok f tmp opened flushed synced ->
   forall p q, ops = p ++ q ->
-  exec p f final = f final \/ (q = [] /\ exists d, exec p f final = Some (d, [])).
+  exec p f final = f final \/ (q = [] /\ exists d, exec p f final = Some (d, [], [])).
 Proof.
-  intros Hne. induction ops as [|o r IH]; intros opened synced f Hs Hok p q Hpq.
+  intros Hne. induction ops as [|o r IH]; intros opened flushed synced f Hs Hok p q Hpq.
   - destruct p; [now left|discriminate].
   - destruct p as [|o' p']; [now left|]. cbn [app] in Hpq. inversion Hpq; subst o' r. clear Hpq.
     cbn [exec fold_left]. fold (exec p' (exec1 f o)).
-    (* last-operation case: a single rename *)
     destruct (p' ++ q) as [|o2 r2] eqn:Er.
     + apply app_eq_nil in Er. destruct Er as [-> ->]. cbn [exec fold_left].
       destruct o; cbn [is_atomic_shape] in Hs; try discriminate;
         try (rewrite ?andb_false_r in Hs; discriminate).
-      * (* Rename a b *)
-        repeat (apply andb_true_iff in Hs; destruct Hs as [Hs ?]).
-        apply Nat.eqb_eq in Hs. apply Nat.eqb_eq in H1. subst a b. subst.
-        destruct Hok as [_ Hsy]. destruct (Hsy eq_refl) as (d & Hd). right. split; [reflexivity|]. exists d.
-        cbn [exec1]. rewrite Hd. rewrite upd_other by congruence. now rewrite upd_same.
-    + (* a later operation exists: o does not touch final *)
-      assert (Hs' : negb (touches final o) = true /\
+      repeat (apply andb_true_iff in Hs; destruct Hs as [Hs ?]).
+      apply Nat.eqb_eq in Hs. apply Nat.eqb_eq in H2. subst a b. subst.
+      destruct Hok as (_ & _ & Hsy). destruct (Hsy eq_refl) as (d & Hd). right. split; [reflexivity|]. exists d.
+      cbn [exec1]. rewrite Hd. rewrite upd_other by congruence. now rewrite upd_same.
+    + assert (Hs' : negb (touches final o) = true /\
                     match o with
-                    | Open_trunc m => Nat.eqb m tmp && is_atomic_shape tmp final (o2 :: r2) true false
-                    | Write m _ => Nat.eqb m tmp && opened && is_atomic_shape tmp final (o2 :: r2) opened false
-                    | Fsync m => Nat.eqb m tmp && is_atomic_shape tmp final (o2 :: r2) opened opened
+                    | Open_trunc m => Nat.eqb m tmp && is_atomic_shape tmp final (o2 :: r2) true true true
+                    | Write m _ => Nat.eqb m tmp && opened && is_atomic_shape tmp final (o2 :: r2) opened false false
+                    | Flush m | Close m => Nat.eqb m tmp && is_atomic_shape tmp final (o2 :: r2) opened opened (flushed && synced)
+                    | Fsync m => Nat.eqb m tmp && is_atomic_shape tmp final (o2 :: r2) opened flushed (opened && flushed)
                     | Rename _ _ => false
-                    | _ => is_atomic_shape tmp final (o2 :: r2) opened synced
+                    | Mkdir => is_atomic_shape tmp final (o2 :: r2) opened flushed synced
                     end = true).
       { cbn [is_atomic_shape] in Hs. destruct o; apply andb_true_iff in Hs; exact Hs. }
       destruct Hs' as [Hnt Hrest]. apply negb_true_iff in Hnt.
       assert (Hf : exec1 f o final = f final) by now apply exec1_untouched.
-      destruct Hok as [Hop Hsy].
-      assert (Hstep : exists opened' synced', is_atomic_shape tmp final (o2 :: r2) opened' synced' = true
-                                              /\ tmp_ok (exec1 f o) tmp opened' synced').
+      destruct Hok as (Hop & Hfl & Hsy).
+      assert (Hstep : exists op' fl' sy', is_atomic_shape tmp final (o2 :: r2) op' fl' sy' = true
+                                          /\ tmp_ok (exec1 f o) tmp op' fl' sy').
       { destruct o; try discriminate.
-        - exists opened, synced. split; [exact Hrest|]. split; cbn [exec1]; assumption.
-        - apply andb_true_iff in Hrest. destruct Hrest as [Hm Hr]. apply Nat.eqb_eq in Hm. subst n.
-          exists true, false. split; [exact Hr|]. split; [|discriminate]. intros _. cbn [exec1]. rewrite upd_same. eauto.
-        - apply andb_true_iff in Hrest. destruct Hrest as [Hm Hr]. apply andb_true_iff in Hm. destruct Hm as [Hm Ho].
-          apply Nat.eqb_eq in Hm. subst n. exists opened, false. split; [exact Hr|]. split; [|discriminate].
-          intros _. destruct (Hop Ho) as (d & p0 & E). cbn [exec1]. rewrite E, upd_same. eauto.
-        - exists opened, synced. split; [exact Hrest|]. split; cbn [exec1]; assumption.
-        - apply andb_true_iff in Hrest. destruct Hrest as [Hm Hr]. apply Nat.eqb_eq in Hm. subst n.
-          exists opened, opened. split; [exact Hr|]. split; intro Ho; destruct (Hop Ho) as (d & p0 & E);
-            cbn [exec1]; rewrite E, upd_same; eauto.
-        - exists opened, synced. split; [exact Hrest|]. split; cbn [exec1]; assumption. }
-      destruct Hstep as (op' & sy' & Hshape & Hok').
-      destruct (IH op' sy' (exec1 f o) Hshape Hok' p' q (eq_sym Er)) as [E|[Eq (d & Ed)]].
+        - (* Mkdir *) exists opened, flushed, synced. split; [exact Hrest|]. repeat split; cbn [exec1]; assumption.
+        - (* Open_trunc *) apply andb_true_iff in Hrest. destruct Hrest as [Hm Hr]. apply Nat.eqb_eq in Hm. subst n.
+          exists true, true, true. split; [exact Hr|]. cbn [exec1]. repeat split; intros; rewrite upd_same; eauto.
+        - (* Write *) apply andb_true_iff in Hrest. destruct Hrest as [Hm Hr]. apply andb_true_iff in Hm. destruct Hm as [Hm Ho].
+          apply Nat.eqb_eq in Hm. subst n. exists opened, false, false. split; [exact Hr|].
+          destruct (Hop Ho) as (d & p0 & u0 & E). cbn [exec1]. rewrite E.
+          repeat split; intros; try discriminate. rewrite upd_same. eauto.
+        - (* Flush *) apply andb_true_iff in Hrest. destruct Hrest as [Hm Hr]. apply Nat.eqb_eq in Hm. subst n.
+          exists opened, opened, (flushed && synced). split; [exact Hr|]. cbn [exec1]. repeat split.
+          + intro Ho. destruct (Hop Ho) as (d & p0 & u0 & E). rewrite E, upd_same. eauto.
+          + intros Ho _. destruct (Hop Ho) as (d & p0 & u0 & E). rewrite E, upd_same. eauto.
+          + intro Hb. apply andb_true_iff in Hb. destruct Hb as [_ Hsy']. destruct (Hsy Hsy') as (d & E).
+            rewrite E, upd_same. cbn. eauto.
+        - (* Fsync *) apply andb_true_iff in Hrest. destruct Hrest as [Hm Hr]. apply Nat.eqb_eq in Hm. subst n.
+          exists opened, flushed, (opened && flushed). split; [exact Hr|]. cbn [exec1]. repeat split.
+          + intro Ho. destruct (Hop Ho) as (d & p0 & u0 & E). rewrite E, upd_same. eauto.
+          + intros Ho Hf'. destruct (Hfl Ho Hf') as (d & p0 & E). rewrite E, upd_same. eauto.
+          + intro Hb. apply andb_true_iff in Hb. destruct Hb as [Ho Hf']. destruct (Hfl Ho Hf') as (d & p0 & E).
+            rewrite E, upd_same. eauto.
+        - (* Close *) apply andb_true_iff in Hrest. destruct Hrest as [Hm Hr]. apply Nat.eqb_eq in Hm. subst n.
+          exists opened, opened, (flushed && synced). split; [exact Hr|]. cbn [exec1]. repeat split.
+          + intro Ho. destruct (Hop Ho) as (d & p0 & u0 & E). rewrite E, upd_same. eauto.
+          + intros Ho _. destruct (Hop Ho) as (d & p0 & u0 & E). rewrite E, upd_same. eauto.
+          + intro Hb. apply andb_true_iff in Hb. destruct Hb as [_ Hsy']. destruct (Hsy Hsy') as (d & E).
+            rewrite E, upd_same. cbn. eauto. }
+      destruct Hstep as (op' & fl' & sy' & Hshape & Hok').
+      destruct (IH op' fl' sy' (exec1 f o) Hshape Hok' p' q (eq_sym Er)) as [E|[Eq (d & Ed)]].
       * left. now rewrite E.
       * right. split; [exact Eq|]. now exists d.
 Qed.
 
-(** C08 (3): crash at ANY point of a save of atomic shape: the final name is absent, holds the old
-    complete content, or holds a complete (fully durable) new content — never a truncated file *)
+(** C08 (3): crash (process death or power loss) at ANY point of a save of atomic shape: the final name
+    is absent, holds the old complete content, or holds a complete, fully durable new content *)
 Theorem atomic_save_crash_safe tmp final ops f0 old :
-  tmp <> final -> is_atomic_shape tmp final ops false false = true ->
-  f0 final = old -> (match old with Some (_, p) => p = [] | None => True end) ->
+  tmp <> final -> is_atomic_shape tmp final ops false false false = true ->
+  f0 final = old -> (match old with Some (_, p, _) => p = [] | None => True end) ->
   forall p q c, ops = p ++ q -> after_crash (exec p f0) final c ->
-  (c = option_map fst old) \/ (q = [] /\ exists d, exec p f0 final = Some (d, []) /\ c = Some d).
+  (c = option_map (fun x => fst (fst x)) old) \/ (q = [] /\ exists d, exec p f0 final = Some (d, [], []) /\ c = Some d).
 Proof.
   intros Hne Hs Hold Hclean p q c Hpq Hc.
-  assert (Hok : tmp_ok f0 tmp false false) by (split; discriminate).
-  destruct (atomic_shape_safe tmp final Hne ops false false f0 Hs Hok p q Hpq) as [E|[Eq (d & Ed)]].
-  - left. unfold after_crash in Hc. rewrite E, Hold in Hc. destruct old as [[d0 p0]|]; destruct c as [bs|]; try contradiction.
+  assert (Hok : tmp_ok f0 tmp false false false) by (repeat split; discriminate).
+  destruct (atomic_shape_safe tmp final Hne ops false false false f0 Hs Hok p q Hpq) as [E|[Eq (d & Ed)]].
+  - left. unfold after_crash in Hc. rewrite E, Hold in Hc. destruct old as [[[d0 p0] u0]|]; destruct c as [bs|]; try contradiction.
     + subst p0. destruct Hc as (k & Hk & ->). cbn in Hk. assert (k = 0) by lia. subst. cbn. now rewrite app_nil_r.
     + reflexivity.
   - right. split; [exact Eq|]. exists d. split; [exact Ed|]. unfold after_crash in Hc. rewrite Ed in Hc.
@@ -92,27 +105,30 @@ Proof.
 Qed.
 
 Lemma atomic_save_has_shape tmp final chunks : tmp <> final ->
-  is_atomic_shape tmp final (atomic_save tmp final chunks) false false = true.
+  is_atomic_shape tmp final (atomic_save tmp final chunks) false false false = true.
 Proof.
   intro Hne. assert (Hf : Nat.eqb tmp final = false) by now apply Nat.eqb_neq.
   unfold atomic_save. cbn [app is_atomic_shape touches negb andb]. rewrite Hf, Nat.eqb_refl. cbn [negb andb].
-  destruct chunks as [|c cs].
-  - cbn. rewrite ?Hf, ?Nat.eqb_refl. cbn. rewrite ?Hf, ?Nat.eqb_refl. reflexivity.
-  - cbn [map app].
-    assert (G : forall cs sy, is_atomic_shape tmp final (map (Write tmp) cs ++ [Flush tmp; Fsync tmp; Close tmp; Rename tmp final]) true sy = true).
-    { clear c cs. induction cs as [|c cs IH]; intro sy.
-      - cbn. rewrite ?Hf, ?Nat.eqb_refl. cbn. rewrite ?Hf, ?Nat.eqb_refl. reflexivity.
-      - cbn [map app is_atomic_shape touches]. rewrite Hf, Nat.eqb_refl. cbn [negb andb].
-        destruct (map (Write tmp) cs ++ _) eqn:E; [destruct cs; discriminate|]. apply IH. }
-    cbn [is_atomic_shape touches]. rewrite Hf, Nat.eqb_refl. cbn [negb andb].
-    destruct (map (Write tmp) cs ++ _) eqn:E; [destruct cs; discriminate|]. rewrite <- E. apply G.
+  assert (G : forall cs fl sy, is_atomic_shape tmp final (map (Write tmp) cs ++ [Flush tmp; Fsync tmp; Close tmp; Rename tmp final]) true fl sy = true).
+  { induction cs as [|c cs IH]; intros fl sy.
+    - cbn. rewrite ?Hf, ?Nat.eqb_refl. cbn. rewrite ?Hf, ?Nat.eqb_refl. reflexivity.
+    - cbn [map app is_atomic_shape touches]. rewrite Hf, Nat.eqb_refl. cbn [negb andb].
+      destruct (map (Write tmp) cs ++ _) eqn:E; [destruct cs; discriminate|]. apply IH. }
+  destruct (map (Write tmp) chunks ++ _) eqn:E; [destruct chunks; discriminate|]. rewrite <- E. apply G.
 Qed.
 
 (** the direct protocol of the pinned tree IS unsafe: a crash right after open leaves an empty file *)
 Lemma direct_save_refuted :
   exists p q c, direct_save 0 [[1;2;3]] = p ++ q /\
-    after_crash (exec p (fun n => if Nat.eqb n 0 then Some ([7;7], []) else None)) 0 c /\ c = Some [].
+    after_crash (exec p (fun n => if Nat.eqb n 0 then Some ([7;7], [], []) else None)) 0 c /\ c = Some [].
 Proof.
   exists [Mkdir; Open_trunc 0], [Write 0 [1;2;3]; Close 0], (Some []). split; [reflexivity|]. split; [|reflexivity].
   cbn. exists 0. split; [lia|reflexivity].
 Qed.
+
+(** fsync BEFORE flush is unsafe too: the rename publishes a file whose tail is not durable *)
+Lemma fsync_before_flush_refuted :
+  let ops := [Open_trunc 1; Write 1 [1;2;3]; Fsync 1; Flush 1; Close 1; Rename 1 0] in
+  is_atomic_shape 1 0 ops false false false = false
+  /\ after_crash (exec ops (fun _ => None)) 0 (Some []).
+Proof. split; [reflexivity|]. cbn. exists 0. split; [lia|reflexivity]. Qed.
